@@ -1,4 +1,4 @@
-import JxlModel.Model.Enc.EntropyV0
+import JxlModel.Model.Enc.SampleCoder
 import JxlModel.Model.Modular.Image
 /-!
 # Reference encoder: Modular sub-bitstreams
@@ -68,15 +68,19 @@ def writeWp (w : BW) (wp : Wp) : BW :=
     let w := [wp.p1, wp.p2, wp.p3a, wp.p3b, wp.p3c, wp.p3d, wp.p3e].foldl (fun w v => w.u 5 v) w
     [wp.w0, wp.w1, wp.w2, wp.w3].foldl (fun w v => w.u 4 v) w
 
-/-- `MaConfig::parse`: tree stream (6 contexts) then the sample decoder header -/
-def writeMaConfig (w : BW) (t : Tree) (sampleToks : List (Nat × Nat)) : BW × V0Plan :=
+/-- re-tag cluster-tagged sample tokens with a context of that cluster -/
+def retag (clusters : List Nat) (toks : List (Nat × Nat)) : List (Nat × Nat) :=
+  toks.map fun (c, v) => ((clusters.findIdx? (· == c)).getD 0, v)
+
+/-- `MaConfig::parse`: tree stream (6 contexts) then the sample decoder header.
+`sections` = the sample tokens `(cluster, value)` of every stream that uses this tree. -/
+def writeMaConfig (w : BW) (mode : EntMode) (t : Tree) (sections : List (List (Nat × Nat))) : BW × Coder :=
   let (toks, clusters) := treeTokens t
-  let w := v0Stream w 6 [0, 1, 2, 3, 4, 5] toks
-  -- sample tokens are tagged with the leaf's cluster; re-tag with a context of that cluster
-  let ctxOfCluster := fun (c : Nat) => (clusters.findIdx? (· == c)).getD 0
-  let toksByCtx := sampleToks.map fun (c, v) => (ctxOfCluster c, v)
-  let p := v0PlanFor clusters.length clusters toksByCtx
-  (v0Header w p, p)
+  let treeMode : EntMode := if mode == 3 then 1 else if mode == 4 then 2 else mode
+  let tc := mkCoder treeMode 6 [0, 1, 2, 3, 4, 5] [toks]
+  let w := tc.section (tc.header w) toks
+  let sc := mkCoder mode clusters.length clusters (sections.map (retag clusters))
+  (sc.header w, sc)
 
 /-- `ModularHeader` -/
 def writeModularHeader (w : BW) (useGlobalTree : Bool) (wp : Wp) (ts : List Transform) : BW :=
@@ -85,9 +89,8 @@ def writeModularHeader (w : BW) (useGlobalTree : Bool) (wp : Wp) (ts : List Tran
   let w := w.u32 [.const 0, .const 1, .bits 2 4, .bits 18 8] ts.length
   ts.foldl writeTransform w
 
-/-- sample tokens `(cluster, value)` written with plan `p` (contexts = first leaf of the cluster) -/
-def writeSamples (w : BW) (p : V0Plan) (clusters : List Nat) (toks : List (Nat × Nat)) : BW :=
-  let ctxOfCluster := fun (c : Nat) => (clusters.findIdx? (· == c)).getD 0
-  toks.foldl (fun w (c, v) => v0Value w p (ctxOfCluster c) v) w
+/-- one section's sample tokens `(cluster, value)` -/
+def writeSamples (w : BW) (sc : Coder) (clusters : List Nat) (toks : List (Nat × Nat)) : BW :=
+  sc.section w (retag clusters toks)
 
 end Jxl.Enc
